@@ -420,7 +420,7 @@ def angular_spectrum_transfer_function(samples, wvl, dx, z):
         such that X = fft2(x); xhat = ifft2(X*tf) is signal x after free space propagation
 
     """
-    if isinstance(samples, int):
+    if not isinstance(samples, Iterable):
         samples = (samples, samples)
 
     wvl = wvl / 1e3
